@@ -16,14 +16,17 @@ StartDisk(s) == CASE s = 0 -> <<>>
 \* the field sets every trajectory of the behaviour carries; a "fieldset_mismatch"
 \* addition carries the other flavour: one field set too many (base) or one too few (extras)
 Flavour(s) == IF s = 3 THEN "extras" ELSE "base"
+\* families with a forced prologue (see FSpec below): 4 = an in-memory store filled to the capacity of its
+\* cache, 5 = an identified file opened for appending; their file-system start is that of 0 resp. 2
+Base(s) == CASE s = 4 -> 0 [] s = 5 -> 2 [] OTHER -> s
 GInit ==
   /\ start \in Starts
   /\ hist = <<>>
-  /\ exists = (start # 0) /\ disk = StartDisk(start)
-  /\ idxTab = IF start = 2 THEN Reindexed(StartDisk(2)) ELSE {}
+  /\ exists = (Base(start) # 0) /\ disk = StartDisk(Base(start))
+  /\ idxTab = IF Base(start) = 2 THEN Reindexed(StartDisk(2)) ELSE {}
   /\ mode = "closed" /\ cache = <<>> /\ next = 0 /\ pending = FALSE
   /\ indexable = "undecided" /\ stale = FALSE
-  /\ added = StartDisk(start)
+  /\ added = StartDisk(Base(start))
   /\ last = Reply("init", "-", "yes", "-")
 
 Rec == [ev |-> last', n |-> Len(added'), ix |-> indexable']
@@ -81,6 +84,23 @@ SimNext == \E j \in {RandomElement(1..Len(Kinds))} :
                ELSE \E d \in {RandomElement(AllCand)} : Do(d)
 SNext == SimNext /\ hist' = Append(hist, Rec) /\ UNCHANGED start
 SSpec == GInit /\ [][SNext]_gvars
+
+\* families: a fixed prologue, then every continuation of D calls (family 5: over the lookup alphabet
+\* look up an identifier / add with an identifier / sync only; family 4: add / save / len / iterate / get)
+Prologue(s) == CASE s = 4 -> <<Op("createmem", 0, 0), Op("add", 1, NoId), Op("add", 2, NoId)>>
+                 [] s = 5 -> <<Op("opena", 0, 0)>>
+                 [] OTHER -> <<>>
+LookupCand == Cand("getflight") \cup {d \in Cand("add") : d.a = 1} \cup Cand("sync")
+MemCand == Cand("add") \cup Cand("save") \cup Cand("len") \cup Cand("iter") \cup Cand("get")
+FamNext == IF Len(hist) < Len(Prologue(start)) THEN Do(Prologue(start)[Len(hist) + 1])
+           ELSE IF start = 5 THEN \E d \in LookupCand : Do(d)
+           ELSE IF start = 4 THEN \E d \in MemCand : Do(d)
+           ELSE Next
+FNext == FamNext /\ hist' = Append(hist, Rec) /\ UNCHANGED start
+FSpec == GInit /\ [][FNext]_gvars
+FEmit == IF Len(hist) < Len(Prologue(start)) + D THEN TRUE
+         ELSE PrintT("@@" \o ToJson([h |-> hist, start |-> Base(start), flavour |-> Flavour(Base(start)), added |-> added, disk |-> disk,
+                                      open |-> (mode # "closed"), exists |-> exists])) /\ FALSE
 
 Out == [h |-> hist, start |-> start, flavour |-> Flavour(start), added |-> added, disk |-> disk, open |-> (mode # "closed"), exists |-> exists]
 Emit == IF Len(hist) < D THEN TRUE
